@@ -710,7 +710,7 @@ struct Driver {
         // filtration when it carries the largest identifier.  Otherwise it is called only once in a while (see above).
         bool bad = false;
         for (auto& in : insts) if (in->note == "last_not_max_id") bad = true;
-        if (bad && !r.chance(1, 6)) { c.count("skip.remove_last.nobar_chain_last_not_max_id"); return true; }
+        if (bad && !r.chance(1, 12)) { c.count("skip.remove_last.nobar_chain_last_not_max_id"); return true; }
       }
       for (auto& in : insts) c.count("op.remove_last." + in->note);
       c.log("REMOVE_LAST " + insts[0]->note);
@@ -868,7 +868,13 @@ template <class O, bool GAPPED>
 void run_case(vh::Case& c) {
   Driver<O> d(c);
   d.gapped_ids = GAPPED;
-  d.run();
+  try {
+    d.run();
+  } catch (const std::exception& e) {
+    // an exception thrown by one of the read-only queries the harness uses to classify a step (is_zero_entry, ...)
+    std::string sg = d.insts.empty() ? Flavour<O>::name() : d.sig(*d.insts[0]);
+    c.violation("query.exception", sg, std::string("exception from a read-only query: ") + e.what());
+  }
 }
 
 }  // namespace c06
